@@ -1,3 +1,5 @@
 import SlipVerif.Model.Num
+import SlipVerif.Model.Pkg
 import SlipVerif.Driver.Num
+import SlipVerif.Driver.Pkg
 import SlipVerif.Driver.Util
